@@ -10,6 +10,7 @@ SK = {"extend_with": 60, "ArrDest": 660, "MINIDUMP_EXCEPTION": 20, "alloc_from_a
 def K(n, d, tier="thorough", **kw): return H("c19_dump::" + n, desc=d, tier=tier, loops=SK, timeout=3400, est_gb=20, mem_gb=40, fs_array=1024, **kw)
 def G(n, d, tier="quick", **kw): return H("c19_dump::" + n, desc=d, tier=tier, loops={"MINIDUMP_EXCEPTION": 20, "alloc_from_array": 8}, timeout=2400, est_gb=10, mem_gb=24, **kw)
 HARNESSES = [
+    H('c19_dump::selftest_empty_vec_drop', tier='thorough'), H('c19_dump::selftest_sublist_drop', tier='thorough'), H('c19_dump::selftest_sublist_passed_by_value', tier='thorough'),
     G("g_dump_fresh", "fresh writer, one application region"),
     G("g_dump_reused_writer", "writer with arbitrary left-over memory_blocks / crashing_thread_context / principal_mapping, one application region"),
     G("g_dump_reused_principal_mapping", "reused writer, skip-unreferenced, the principal address now matches no mapping"),
